@@ -6,6 +6,8 @@ open BinNums
 open Zutil
 open HgImpl
 
+(* cmd/crash replays a node's own events from its database: the pool discipline (C05) is not observable there *)
+let pools_check = ref true
 type node = { mutable st : hg; shadow : (string, string) Hashtbl.t; mutable pools : NodeModel.pools; self : string }
 
 let nodes : (string, node) Hashtbl.t = Hashtbl.create 16
@@ -140,7 +142,7 @@ let handle check diff (toks : string list) (raw : string) : bool =
     let expect = match tail with "=>" :: r :: _ -> r | _ -> "?" in
     check "I" raw expect (res_str res);
     (* pools (NodeModel): a self-event carries exactly the transactions pending at its creation *)
-    if n.self <> "-1" && zs e.e_creator = n.self && res = InsOk then begin
+    if !pools_check && n.self <> "-1" && zs e.e_creator = n.self && res = InsOk then begin
       let pending = join (map zs n.pools.NodeModel.p_txs) in
       check "SELF" raw (join (map zs e.e_txs)) pending;
       n.pools <- NodeModel.pstep n.pools (NodeModel.PSelfEvent (true, true, [], []))
@@ -151,11 +153,12 @@ let handle check diff (toks : string list) (raw : string) : bool =
     n.pools <- NodeModel.pstep n.pools (NodeModel.PSubmit (map z_of_string txs)); true
   | "G" :: id :: [] -> let n = node_of id in n.st <- process_sigpool n.st; true
   | "o" :: id :: key :: value ->
-    let n = node_of id in Hashtbl.replace n.shadow key (join value); true
+    let n = node_of id in
+    if key = "pl" && not !pools_check then true else begin Hashtbl.replace n.shadow key (join value); true end
   | "K" :: id :: [] ->
     let n = node_of id in
     let d = dump n.st in
-    let d = if n.self <> "-1" then ("pl", join (map zs n.pools.NodeModel.p_txs)) :: d else d in
+    let d = if !pools_check && n.self <> "-1" then ("pl", join (map zs n.pools.NodeModel.p_txs)) :: d else d in
     let bad = ref 0 in
     if n.st.failed then (incr bad; diff "K" raw "no-error" "model consensus pass failed");
     let seen = Hashtbl.create 256 in
